@@ -263,3 +263,15 @@ func AsRTUErrorPacket(data []byte) error {
 	}
 	return nil // probably start of valid packet
 }
+
+// AsRTUErrorPacketWithCRC checks packet CRC and converts raw packet bytes to Modbus RTU error response if possible.
+// Data with invalid CRC is never reported as error response.
+func AsRTUErrorPacketWithCRC(data []byte) error {
+	if len(data) != 5 {
+		return nil
+	}
+	if binary.LittleEndian.Uint16(data[3:5]) != CRC16(data[0:3]) {
+		return nil
+	}
+	return AsRTUErrorPacket(data)
+}
